@@ -377,10 +377,13 @@ def check_dssr_eval(chk) -> bool:
 
 def run(chk) -> None:
     chk.explanation = (
-        "Static rules on adapter.py: a small may-raise analysis (int()/float() of strings, constant subscripts of split() results without an exact length guard, Enum subscripts, explicit raises, "
-        "callees of the same module) minus enclosing handlers shows nothing escapes the per-line path; unit-id field positions; the category literals returned by the normaliser equal the ones "
-        "dispatched, each branch appends one object of the matching class to its own list; keys written = keys read; BaseInteractions arguments in field order; every normalisation step rewrites "
-        "the working label from itself, in the pinned order; DSSR guard exactness, pair filter, consecutive stack members, name matching."
+        "Static rules on adapter.py. For all inputs: a small may-raise analysis (int()/float() of strings, constant subscripts of split() results without an exact length guard, Enum subscripts, "
+        "explicit raises, callees of the same module) minus enclosing handlers shows nothing escapes the per-line path. Per class of input (fragment evaluation, DESIGN 1.2 item 4, in the abstract "
+        "world of sa/world.py: Enum classes, dataclass constructors, the module's own functions as inlined ast, module-level tables folded in the same world): parse_unit_id on unit ids of every field "
+        "count; parse_fr3d_output on one listing per category the evaluated normaliser returns (exactly one object of the class of the category, between the residues of column 1 and 3, in the "
+        "BaseInteractions field of that element type), on comment / blank / malformed lines (skipped, nothing raised, later lines kept) and on several lines (file order); unify_classification on one "
+        "label per class of the label language; match_dssr_lw on every member name and on non-members; match_dssr_name_to_residue on exact / model-prefixed / prefix / unknown / missing ids; the pair and "
+        "stack loops of parse_dssr_output on five documents. The pinned forms of these constructs are consulted only where the evaluation is not possible."
     )
     chk.trusted = ["CPython ast", "orjson.loads / file I/O errors are outside the statement", "stacking label table as coded (what FR3D's four labels denote is not decided)"]
     chk.assumptions = ["the label language as a set of strings is not enumerated (that would be execution); only the structure of the normaliser is decided"]
